@@ -970,6 +970,9 @@ _pixman_bits_image_src_iter_init (pixman_image_t *image, pixman_iter_t *iter)
     iter->get_scanline = _pixman_iter_get_scanline_noop;
 }
 
+/* pixels of the alpha map fetched at a time by the destination iterators */
+#define ALPHA_MAP_CHUNK 128
+
 static uint32_t *
 dest_get_scanline_narrow (pixman_iter_t *iter, const uint32_t *mask)
 {
@@ -982,25 +985,31 @@ dest_get_scanline_narrow (pixman_iter_t *iter, const uint32_t *mask)
     image->bits.fetch_scanline_32 (&image->bits, x, y, width, buffer, mask);
     if (image->common.alpha_map)
     {
-	uint32_t *alpha;
+	/* The alpha channel comes from the alpha map.  Fetch it in pieces
+	 * through a buffer on the stack: a heap buffer that cannot be
+	 * allocated would leave the image's own alpha channel in place,
+	 * and the row would be composited - and the map overwritten - with
+	 * the wrong alpha.
+	 */
+	uint32_t alpha[ALPHA_MAP_CHUNK];
+	int i, j, n;
 
-	if ((alpha = malloc (width * sizeof (uint32_t))))
+	x -= image->common.alpha_origin_x;
+	y -= image->common.alpha_origin_y;
+
+	for (j = 0; j < width; j += n)
 	{
-	    int i;
-
-	    x -= image->common.alpha_origin_x;
-	    y -= image->common.alpha_origin_y;
+	    n = MIN (width - j, ALPHA_MAP_CHUNK);
 
 	    image->common.alpha_map->fetch_scanline_32 (
-		image->common.alpha_map, x, y, width, alpha, mask);
+		image->common.alpha_map, x + j, y, n, alpha,
+		mask ? mask + j : NULL);
 
-	    for (i = 0; i < width; ++i)
+	    for (i = 0; i < n; ++i)
 	    {
-		buffer[i] &= ~0xff000000;
-		buffer[i] |= (alpha[i] & 0xff000000);
+		buffer[j + i] &= ~0xff000000;
+		buffer[j + i] |= (alpha[i] & 0xff000000);
 	    }
-
-	    free (alpha);
 	}
     }
 
@@ -1020,22 +1029,23 @@ dest_get_scanline_wide (pixman_iter_t *iter, const uint32_t *mask)
 	image, x, y, width, (uint32_t *)buffer, mask);
     if (image->common.alpha_map)
     {
-	argb_t *alpha;
+	/* see dest_get_scanline_narrow() */
+	argb_t alpha[ALPHA_MAP_CHUNK];
+	int i, j, n;
 
-	if ((alpha = malloc (width * sizeof (argb_t))))
+	x -= image->common.alpha_origin_x;
+	y -= image->common.alpha_origin_y;
+
+	for (j = 0; j < width; j += n)
 	{
-	    int i;
-
-	    x -= image->common.alpha_origin_x;
-	    y -= image->common.alpha_origin_y;
+	    n = MIN (width - j, ALPHA_MAP_CHUNK);
 
 	    image->common.alpha_map->fetch_scanline_float (
-		image->common.alpha_map, x, y, width, (uint32_t *)alpha, mask);
+		image->common.alpha_map, x + j, y, n, (uint32_t *)alpha,
+		mask ? mask + 4 * j : NULL);    /* an argb_t per pixel */
 
-	    for (i = 0; i < width; ++i)
-		buffer[i].a = alpha[i].a;
-
-	    free (alpha);
+	    for (i = 0; i < n; ++i)
+		buffer[j + i].a = alpha[i].a;
 	}
     }
 
